@@ -147,7 +147,7 @@ fn shape_of(topic: &[u8]) -> Shape {
         }
     }
     if segs.len() >= 2 && segs[1] == b"STATE" {
-        if segs.len() >= 3 && is_utf8(&segs[2]) {
+        if segs.len() == 3 && is_utf8(&segs[2]) {
             return Shape::State { h: segs[2].clone(), extra: segs.len() > 3 };
         }
         return Shape::None;
